@@ -63,8 +63,38 @@ class Ctx:
         self.notes.append(text)
 
     # ---- obligations
-    def ob(self, rule, node, ok, detail="", construct=None, stmt=None, extra=None):
+    # rules whose refutations are produced by an analysis of behaviour (flow graph, abstract interpretation, languages, intervals,
+    # taint) and therefore stand in a restructured function as well; everything else is gated, see ob()
+    SEMANTIC_RULES = frozenset("""
+        R01f R02g R03a R03c R04e R06d R07h R08h R08i R08j R09a R09f R09i R10b R10d R10j R10k R10l R10m R11a R12d R12e R12h
+        R13a R13b R13c R13e R14a R14e R15a R15b R15e R16g R17b R18g R20a R20b R20d""".split())
+
+    def semantic(self, *rules):
+        """Declare rules whose refutations come from an analysis of what the code does (flow graph, abstract interpretation,
+        languages, intervals): they stand in a restructured function too.  All other refutations are 'the code is not written
+        the way the reference writes it' and only count where the function is still recognisably the reference one."""
+        self.__dict__.setdefault("_semantic", set()).update(rules)
+
+    def ob(self, rule, node, ok, detail="", construct=None, stmt=None, extra=None, semantic=False):
         """Record one obligation: `rule` evaluated on the construct `node`."""
+        if not ok and isinstance(node, ast.AST) and not semantic and rule not in self.__dict__.get("_semantic", ()) and rule not in self.SEMANTIC_RULES and os.environ.get("VERIF_NO_SHAPE_GATE") != "1":
+            from .core import enclosing_func as _ef
+            f_ = node if isinstance(node, (ast.FunctionDef, ast.AsyncFunctionDef)) else _ef(node)
+            if f_ is not None:
+                cache_ = self.__dict__.setdefault("_restructured", {})
+                if id(f_) not in cache_:
+                    try:
+                        cache_[id(f_)] = self.restructured(f_, 0.8)
+                    except Exception:
+                        cache_[id(f_)] = (None, False)
+                ratio_, far_ = cache_[id(f_)]
+                if far_:
+                    # a shape mismatch inside a function that was rewritten: outside the rule, not a finding
+                    self.counts["refutations not believed in restructured functions"] = self.counts.get("refutations not believed in restructured functions", 0) + 1
+                    self.__dict__.setdefault("errors", []).append(AnalysisError(
+                        rule, f"{getattr(f_, 'name', '?')}", f"{detail[:160]} - in a function that was restructured (similarity to the reference {ratio_:.2f}): the rule reads the "
+                        "reference's way of writing it, so this is not a finding; not decided"))
+                    return False
         if isinstance(node, ast.AST):
             st = enclosing_stmt(node) if not isinstance(node, (ast.stmt, ast.ExceptHandler)) else node
             c = construct or qual(node)
@@ -125,6 +155,52 @@ class Ctx:
             if os.environ.get("VERIF_DEBUG"):
                 traceback.print_exc()
             return None
+
+    def restructured(self, func, threshold=0.8):
+        """(ratio, True/False): is `func` (possibly an analysis copy with helpers expanded) structurally far from the reference
+        version of the same function?  Rules that recognise ONE way of writing an algorithm use it: a mismatch in a function
+        that is the reference with a local edit is a finding; a mismatch in a function that was rewritten is outside the rule."""
+        from . import alpha
+        import ast as _ast
+        orig = getattr(func, "_inlined_from", func)
+        quals, p_ = [orig.name], getattr(orig, "_parent", None)
+        while p_ is not None:
+            if isinstance(p_, (_ast.FunctionDef, _ast.AsyncFunctionDef, _ast.ClassDef)):
+                quals.append(p_.name)
+            p_ = getattr(p_, "_parent", None)
+        mod = getattr(orig, "_mod", None)
+        fr = alpha.reference_function(mod.rel, ".".join(reversed(quals))) if mod is not None else None
+        if fr is None:
+            return None, False
+        r = alpha.similarity(func, fr)
+        un_new, un_ref = alpha.unmatched_statements(func, fr)
+        if orig is not func:
+            # an analysis copy with helpers expanded: also the function as written counts (expansion adds statements the
+            # reference does not have); the closer of the two views decides
+            r0 = alpha.similarity(orig, fr)
+            if r0 > r:
+                r = r0
+                un_new, un_ref = alpha.unmatched_statements(orig, fr)
+        log_ = os.environ.get("VERIF_GATE_LOG")
+        if log_:
+            with open(log_, "a") as fh_:
+                fh_.write(f"{self.repo.root if self.repo is not None else '?'}\t{'.'.join(reversed(quals))}\t{r:.2f}\t{un_new}\t{un_ref}\n")
+        # restructured: a large part of the statements has no counterpart - in proportion AND in number (a three-line function
+        # with one changed line is a local edit, not a rewrite)
+        return r, (r < threshold and un_new + un_ref >= 16)
+
+    def shape_ob(self, rule, node, ok, detail_ok, detail_bad, func, stmt=None, **kw):
+        """An obligation of a rule that recognises one way of writing something: refuted only when the enclosing function is
+        still recognisably the reference one (a local edit broke the shape); in a restructured function the rule does not apply
+        and the verdict is 'undecided'."""
+        if ok:
+            return self.ob(rule, node, True, detail_ok, stmt=stmt, **kw) if stmt is not None else self.ob(rule, node, True, detail_ok, **kw)
+        ratio, far = self.restructured(func)
+        if far:
+            self.counts["shape rules not applied to restructured functions"] = self.counts.get("shape rules not applied to restructured functions", 0) + 1
+            raise AnalysisError(rule, f"{getattr(func, 'name', '?')}", f"{detail_bad} - but the function was restructured (similarity to the reference {ratio:.2f}): "
+                                                                      "this rule describes the reference's way of writing it and does not apply; not decided")
+        return self.ob(rule, node, False, detail_bad, stmt=stmt, **kw) if stmt is not None else self.ob(rule, node, False, detail_bad, **kw)
 
     def need(self, cond, rule, anchor, detail=""):
         """Fail-closed: an idiom / anchor the rule depends on must be there."""
